@@ -5,7 +5,7 @@ import z3
 from pyvc import smt, views
 from pyvc.smt import I
 from pyvc.values import *          # noqa
-from pyvc.engine import GenStreamV, RangeV, Outcome
+from pyvc.engine import GenStreamV, RangeV, Outcome, IterV
 from pyvc.contract import *        # noqa
 from pyvc.views import View, AbsView, AX, Out
 from contracts import spec
@@ -260,8 +260,13 @@ def _parmap_post(with_key):
             return [('parmap:returns-lazy_parallel_map-stream', smt.F)]
         g = o.value
         ok_fn = (g.fn is f['map_function']) if not with_key else True
-        src_ok = isinstance(g.source, DSRefV) and g.source.t.eq(f['input_dataset'].t) if not with_key else \
-            isinstance(g.source, StreamV) and g.source.with_key
+        if with_key:
+            srcv = g.source
+            if isinstance(srcv, IterV):          # a generator object: its stream
+                srcv = S.st.heap[srcv.oid]['stream']
+            src_ok = isinstance(srcv, StreamV) and srcv.with_key
+        else:
+            src_ok = isinstance(g.source, DSRefV) and g.source.t.eq(f['input_dataset'].t)
         kw = g.kw
         cfg = kw.get('buffer_size') is f['buffer_size'] and kw.get('max_workers') is f['num_workers'] \
             and kw.get('backend') is f['backend']
